@@ -659,6 +659,32 @@ def _scribble(scratch):
             x[i] = 0x5a
 
 
+def scribble_returned(obj, depth=0):
+    """the caller goes on using what the library RETURNED to it as its own: every writable buffer it can reach is
+    overwritten, every list is edited (an element replaced, one appended).  Whatever the library hands out must not be
+    something it will hand out, or read, again."""
+    if depth > 4:
+        return
+    if isinstance(obj, bytearray):
+        for i in range(len(obj)):
+            obj[i] = 0xa5
+    elif isinstance(obj, memoryview):
+        if not obj.readonly:
+            try:
+                obj[:] = b'\xa5' * len(obj)
+            except (TypeError, ValueError):
+                pass
+    elif isinstance(obj, list):
+        for x in obj:
+            scribble_returned(x, depth + 1)
+        if obj:
+            obj[0] = b'\x08\x03zzz'
+        obj.append(b'\x08\x05extra')
+    elif isinstance(obj, tuple):
+        for x in obj:
+            scribble_returned(x, depth + 1)
+
+
 class RaisingSigner(SynthSigner):
     """fails while it is asked for the signature value (a key store that went away)"""
     def write_signature_value(self, wire, contents):
@@ -720,6 +746,7 @@ def make_packet(case, rec=None):
             _scribble(scratch)
             wire = bytes(ret)
             out['final_name'] = None
+            scribble_returned(ret)
         else:
             p = case['param']
             fhf = case.get('fh_form')
@@ -743,6 +770,8 @@ def make_packet(case, rec=None):
             out['final_name'] = [bytes(c).hex() for c in fn]
             _scribble(scratch)
             wire = bytes(ret)
+            scribble_returned(ret)
+            scribble_returned(fn)
         out['made'] = ['ok', wire.hex()]
     except Exception as e:   # noqa
         out['made'] = ['err', exc_name(e)]
